@@ -198,6 +198,64 @@ mutant("c13_estimate_on_model_state", "C13", "models/mcmc_saem_compatible.py",
        "        local_state = self.state.clone(disable_auto_fork=True)\n        self._put_data_timepoints(local_state, timepoints)\n        for (",
        "        local_state = self.state\n        self._put_data_timepoints(local_state, timepoints)\n        for (")
 
+# ----------------------------------------------------------------------------- C06
+mutant("c06_zero_times_nan_in_weighted_sum", "C06", "utils/weighted_tensor/_weighted_tensor.py",
+       "        weighted_values = weight * self.filled(0)\n        weighted_sum = weighted_values.sum(**kws)",
+       "        weighted_values = weight * self.value\n        weighted_sum = weighted_values.sum(**kws)")
+mutant("c06_observation_count_includes_masked", "C06", "utils/weighted_tensor/_weighted_tensor.py",
+       "        sum_weights = weight.sum(**kws)", "        sum_weights = torch.ones_like(weight).sum(**kws)")
+mutant("c06_bernoulli_validates_masked_entries", "C06", "variables/distributions.py",
+       "            -cls.dist_factory(*params).log_prob(x.filled(0.0)), x.weight", "            -cls.dist_factory(*params).log_prob(x.value), x.weight")
+mutant("c06_model_not_zeroed_under_padding", "C06", "models/logistic.py",
+       "        return WeightedTensor(torch.sigmoid(model_logit), weights).weighted_value",
+       "        return torch.sigmoid(model_logit)")
+mutant("c06_visit_weight_for_entry_weight", "C06", "models/obs_models/_gaussian.py",
+       "        return WeightedTensor(dataset.values, weight=dataset.mask.to(torch.bool))",
+       "        return WeightedTensor(dataset.values, weight=dataset.mask.to(torch.bool).any(dim=-1, keepdim=True).expand_as(dataset.mask))")
+# ----------------------------------------------------------------------------- C07
+mutant("c07_ratio_centred_on_cohort", "C07", "samplers/gibbs.py",
+       "            return state.get_tensor_values(\n                (\"nll_attach_ind\", f\"nll_regul_{self.name}_ind\")\n            )",
+       "            a, r = state.get_tensor_values(\n                (\"nll_attach_ind\", f\"nll_regul_{self.name}_ind\")\n            )\n            return a + 0.5 * (a - a.mean()), r")
+mutant("c07_results_zipped_with_sorted_ids", "C07", "algo/personalize/scipy_minimize.py",
+       "        for id_pat, ind_params_pat in zip(dataset.indices, ind_p_all):", "        for id_pat, ind_params_pat in zip(sorted(dataset.indices, reverse=True), ind_p_all):")
+mutant("c07_one_state_shared_between_jobs", "C07", "algo/personalize/scipy_minimize.py",
+       "            states[idx] = state.clone(disable_auto_fork=True)\n", "            states[idx] = state.clone(disable_auto_fork=True) if not states else next(iter(states.values()))\n")
+mutant("c07_set_ordered_sum", "C07", "variables/specs.py",
+       "        self._latent_pop_vars = {}\n        self._latent_ind_vars = {}", "        self._latent_pop_vars = {}\n        self._latent_ind_vars = set()", tier="thorough",
+       also=())
+# ----------------------------------------------------------------------------- C11
+mutant("c11_numpy_not_seeded", "C11", "algo/base.py", "            np.random.seed(seed)\n", "")
+mutant("c11_torch_not_seeded", "C11", "algo/base.py", "            torch.manual_seed(seed)\n", "")
+mutant("c11_logger_consumes_a_draw", "C11", "algo/fit/fit_output_manager.py",
+       "    def print_time(self):", "    def print_time(self):\n        torch.rand(1)")
+mutant("c11_print_only_logging_crashes", "C11", "algo/fit/fit_output_manager.py",
+       "        self.path_output = None  # no output folder (console logs only)\n", "")
+mutant("c11_set_ordered_sum", "C11", "variables/specs.py",
+       "        self._latent_pop_vars = {}\n        self._latent_ind_vars = {}", "        self._latent_pop_vars = {}\n        self._latent_ind_vars = set()")
+# ----------------------------------------------------------------------------- C17
+mutant("c17_burn_in_draws_kept", "C17", "algo/personalize/mcmc.py",
+       "                if not self._is_burn_in():", "                if True:")
+mutant("c17_mode_argmax", "C17", "algo/personalize/mode_posterior.py", "        indices_iter_best = torch.argmin(", "        indices_iter_best = torch.argmax(")
+mutant("c17_mode_ignores_regularity", "C17", "algo/personalize/mode_posterior.py",
+       "            attachments + self.regularity_factor * regularities, dim=0", "            attachments + 0 * regularities, dim=0")
+mutant("c17_ids_sorted", "C17", "algo/personalize/scipy_minimize.py",
+       "        for id_pat, ind_params_pat in zip(dataset.indices, ind_p_all):", "        for id_pat, ind_params_pat in zip(sorted(dataset.indices), ind_p_all):")
+mutant("c17_mean_over_all_but_first", "C17", "algo/personalize/mean_posterior.py",
+       "            ind_var_name: value_var.mean(dim=0)", "            ind_var_name: value_var[1:].mean(dim=0) if len(value_var) > 1 else value_var.mean(dim=0)")
+# ----------------------------------------------------------------------------- C18
+mutant("c18_duplicates_kept", "C18", "algo/simulate/simulate.py",
+       "        df_sim = df_sim[~df_sim.index.duplicated()]\n", "")
+mutant("c18_rounding_precision_off_by_one", "C18", "algo/simulate/simulate.py",
+       "        rounding_options = {0: 1, 1: 0.1, 2: 0.01, 3: 0.001}", "        rounding_options = {0: 10, 1: 1, 2: 0.1, 3: 0.01}")
+mutant("c18_mean_and_std_validation", "C18", "algo/simulate/simulate.py",
+       "            if self.param_study[\"distance_visit_mean\"] <= 0:", "            if self.param_study[\"distance_visit_mean\"] <= 0 and self.param_study[\"distance_visit_std\"] <= 0:")
+mutant("c18_ids_start_at_one", "C18", "algo/simulate/simulate.py",
+       "            columns = [str(i) for i in range(0, self.param_study[\"patient_number\"])]", "            columns = [str(i) for i in range(1, self.param_study[\"patient_number\"] + 1)]")
+mutant("c18_negative_std_accepted", "C18", "algo/simulate/simulate.py",
+       "            if param.endswith(\"_std\") and value < 0:", "            if param.endswith(\"_std\") and value < -1:")
+mutant("c18_one_patient_less", "C18", "algo/simulate/base.py",
+       "        simulated_data = Data.from_dataframe(df_sim)", "        simulated_data = Data.from_dataframe(df_sim[df_sim.index.get_level_values(0) != df_sim.index.get_level_values(0)[-1]] if df_sim.index.get_level_values(0).nunique() > 2 else df_sim)")
+
 
 def apply_mutant(m, dst_src: Path) -> bool:
     f = dst_src / "leaspy" / m["file"]
